@@ -6,8 +6,8 @@
    Statements only (proofs in Proofs/SrcTie*P.v). *)
 From Coq Require Import List Bool ZArith String Ascii.
 Import ListNotations.
-Require Import MV.Model.PySem MV.Spec.Types MV.Model.LinkSel MV.Gen.Src MV.Gen.TypeTables MV.Proofs.SrcTieP.
-Require MV.Model.Orch MV.Model.Naming MV.Model.ChainParser.
+Require Import MV.Model.PySem MV.Spec.Types MV.Model.LinkSel MV.Gen.Src MV.Gen.SrcPlan MV.Gen.TypeTables MV.Proofs.SrcTieP.
+Require MV.Model.Orch MV.Model.Naming MV.Model.ChainParser MV.Model.PlannerA MV.Model.PlannerL MV.Model.PyObj.
 
 (* ---------------- C18: mloda/core/abstract_plugins/components/index/index.py ---------------- *)
 (* Index.is_a_part_of_ never raises (the t[i] it contains stays in range) and is the model C18_index_prefix is about *)
@@ -110,6 +110,35 @@ Theorem SrcTie_is_chained_feature : forall s,
   FeatureChainParser_is_chained_feature s = ChainParser.has_dunder (list_ascii_of_string s).
 Proof. exact is_chained_feature_src. Qed.
 Print Assumptions SrcTie_is_chained_feature.
+
+(* ---------------- C04, the planner (round 2): coq/Gen/SrcPlan.v; data model of the planner objects: Model/PyObj.v ---------------- *)
+(* mloda/core/core/step/join_step.py  JoinStep.get_uuids = the uuids PlannerL gives its LJOIN step *)
+Theorem SrcTie_joinstep_get_uuids : forall s, JoinStep_get_uuids s = [PlannerL.js_uid (fst s); fst s].
+Proof. exact joinstep_get_uuids_src. Qed.
+Print Assumptions SrcTie_joinstep_get_uuids.
+
+(* mloda/core/prepare/joinstep_collection.py  similar_dependent_joins_uuids: the dict is iterated in insertion order (its
+   keys), the result is PlannerL.jc_required of those keys - the same list, not only the same set *)
+Theorem SrcTie_similar_dependent_joins_uuids : forall collection lf rf,
+  JoinStepCollection_similar_dependent_joins_uuids collection lf rf = PlannerL.jc_required (py_dict_keys collection) lf rf.
+Proof. exact similar_dependent_joins_uuids_src. Qed.
+Print Assumptions SrcTie_similar_dependent_joins_uuids.
+
+(* JoinStepCollection.add: collection[join_step] = similar_dependent_joins_uuids(...); for a JoinStep that is not a key yet
+   (JoinStep.__eq__ compares the uuid4 of the object) the entry is appended: exactly the jc / jr of PlannerL.add_joinstep *)
+Theorem SrcTie_joinstep_collection_add : forall collection js,
+  JoinStepCollection_add collection js
+  = (tt, py_dict_set PyObj.jstep_eqb collection js
+           (PlannerL.jc_required (py_dict_keys collection) (PyObj.js_left js) (PyObj.js_right js))).
+Proof. exact joinstep_collection_add_src. Qed.
+Print Assumptions SrcTie_joinstep_collection_add.
+
+Theorem SrcTie_joinstep_collection_add_fresh : forall collection js,
+  py_dict_mem PyObj.jstep_eqb js collection = false ->
+  JoinStepCollection_add collection js
+  = (tt, collection ++ [(js, PlannerL.jc_required (py_dict_keys collection) (PyObj.js_left js) (PyObj.js_right js))]).
+Proof. exact joinstep_collection_add_fresh. Qed.
+Print Assumptions SrcTie_joinstep_collection_add_fresh.
 
 (* non-vacuity: the regenerated definitions compute, on both sides of each decision *)
 Example SrcTie_examples :
